@@ -111,7 +111,7 @@ func c12(c *Ctx) {
 			if inner != nil {
 				nested[inner] = true
 			}
-			sites = append(sites, sendSite{fi: fi, call: call, helper: fn.Name(), lit: lit, inner: inner})
+			sites = append(sites, sendSite{fi: fi, call: call, helper: fname(fn), lit: lit, inner: inner})
 		}
 		if len(sites) == 0 {
 			continue
@@ -283,7 +283,7 @@ func (c *Ctx) prefixClass(fi *load.FuncInfo, f *ircFacts, pv ast.Expr, isS func(
 		}
 	}
 	if call, ok := pv.(*ast.CallExpr); ok {
-		if fn := astx.Callee(info, call); fn != nil && fn.Name() == "servicesPrefix" {
+		if fn := astx.Callee(info, call); fn != nil && fname(fn) == "servicesPrefix" {
 			return "svc", nil
 		}
 	}
@@ -452,7 +452,7 @@ func (c *Ctx) sessionFromNickParam(fi *load.FuncInfo, f *ircFacts, e ast.Expr, m
 		if !ok || len(call.Args) != 1 {
 			continue
 		}
-		if fn := astx.Callee(info, call); fn == nil || fn.Name() != "NickToLower" {
+		if fn := astx.Callee(info, call); fn == nil || fname(fn) != "NickToLower" {
 			continue
 		}
 		b := astx.BaseIdent(call.Args[0])
@@ -501,7 +501,7 @@ func (c *Ctx) c12Helpers(f *ircFacts) {
 		if fi.Obj == nil || !f.sendHelpers[fi.Obj] {
 			continue
 		}
-		sp, known := specs[fi.Obj.Name()]
+		sp, known := specs[fname(fi.Obj)]
 		if !known {
 			r.Fail("C12.T1", fi.Name(), "unknown send helper", c.P.Pos(fi.Node().Pos()), "a new function writes recipient sets; its semantics are not in the helper table")
 			continue
@@ -648,7 +648,7 @@ func (c *Ctx) c12Helpers(f *ircFacts) {
 		for _, cl := range compositeLitsOf(info, f.send.Body(), pathRobust, "Message") {
 			if d := litField(cl, "Data"); d != nil {
 				for _, call := range astx.Calls(d, false) {
-					if fn := astx.Callee(info, call); fn != nil && (fn.Name() == "Bytes" || fn.Name() == "String") && astx.RecvNamed(fn) != nil && astx.RecvNamed(fn).Obj().Name() == "Message" {
+					if fn := astx.Callee(info, call); fn != nil && (fname(fn) == "Bytes" || fname(fn) == "String") && astx.RecvNamed(fn) != nil && astx.RecvNamed(fn).Obj().Name() == "Message" {
 						okData = true
 					}
 				}
@@ -734,7 +734,7 @@ func (c *Ctx) c12Filters(f *ircFacts) {
 		n := 0
 		for _, call := range astx.Calls(fi.Body(), false) {
 			fn := astx.Callee(info, call)
-			if fn == nil || fn.Name() != "Encode" || len(call.Args) != 1 {
+			if fn == nil || fname(fn) != "Encode" || len(call.Args) != 1 {
 				continue
 			}
 			n++
@@ -792,7 +792,7 @@ func (c *Ctx) c12Privmsg(f *ircFacts) {
 		if fn == nil {
 			continue
 		}
-		switch fn.Name() {
+		switch fname(fn) {
 		case "sendChannelButOne":
 			ch := call.Args[0]
 			v := g.VertexOf(call)
@@ -827,11 +827,7 @@ func (c *Ctx) c12Privmsg(f *ircFacts) {
 				if e.Cond == nil || e.Tag != nil {
 					return false
 				}
-				for _, cl := range c.clausesOf(info, fi.Node(), e.Cond, e.Val, 0) {
-					if len(cl) != 1 {
-						continue
-					}
-					l := cl[0]
+				okLit := func(l clauseLit) bool {
 					if ie, ok := ast.Unparen(l.E).(*ast.IndexExpr); ok && !l.Pos {
 						if se, ok := ast.Unparen(ie.X).(*ast.SelectorExpr); ok && se.Sel.Name == "modes" && astx.Same(info, se.X, target) {
 							if m, ok := astx.ConstInt(info, ie.Index); ok && m == 'G' {
@@ -871,8 +867,36 @@ func (c *Ctx) c12Privmsg(f *ircFacts) {
 							return true
 						}
 					}
+					// a call of a predicate "the two sessions share a channel"
+					if call, ok := ast.Unparen(l.E).(*ast.CallExpr); ok && l.Pos && len(call.Args) == 2 {
+						if fn := astx.Callee(info, call); fn != nil {
+							if cal := c.P.FuncOf(fn); cal != nil && c.isCommonChannelPredicate(cal, f) {
+								a0, a1 := call.Args[0], call.Args[1]
+								if (astx.Same(info, a0, target) && gc.isS(a1)) || (astx.Same(info, a1, target) && gc.isS(a0)) {
+									return true
+								}
+							}
+						}
+					}
+					return false
 				}
-				return false
+				// the edge's condition is a disjunction of clauses: each alternative must contain an accepted literal
+				cls := c.clausesOf(info, fi.Node(), e.Cond, e.Val, 0)
+				if len(cls) == 0 {
+					return false
+				}
+				for _, cl := range cls {
+					has := false
+					for _, l := range cl {
+						if okLit(l) {
+							has = true
+						}
+					}
+					if !has {
+						return false
+					}
+				}
+				return true
 			}
 			reach := g.Reach(g.Entry, nil, pass)
 			r.Check(!reach[v], "C12.T6", fi.Name(), "private message to a +G user only from someone sharing a channel", c.P.Pos(call.Pos()), "every path passes !modes['G'] or the common-channel flag",
@@ -880,4 +904,97 @@ func (c *Ctx) c12Privmsg(f *ircFacts) {
 		}
 	}
 	r.Floor("C12.T6", 1)
+}
+
+// isCommonChannelPredicate recognises func(a, b *Session) bool that answers "a and b share a channel":
+// every `return true` sits inside a range over one parameter's Channels under a successful look-up of the
+// range key in the other parameter's Channels, and every other return is the constant false.
+func (c *Ctx) isCommonChannelPredicate(fi *load.FuncInfo, f *ircFacts) bool {
+	if fi.Body() == nil || fi.FuncType().Results == nil || len(fi.FuncType().Results.List) != 1 {
+		return false
+	}
+	info := fi.Info()
+	var params []types.Object
+	for _, fld := range fi.FuncType().Params.List {
+		for _, nm := range fld.Names {
+			params = append(params, info.Defs[nm])
+		}
+	}
+	if len(params) != 2 {
+		return false
+	}
+	paramOf := func(e ast.Expr) types.Object {
+		se, ok := ast.Unparen(e).(*ast.SelectorExpr)
+		if !ok || astx.FieldSel(info, se) != f.fSChannels {
+			return nil
+		}
+		id, ok := ast.Unparen(se.X).(*ast.Ident)
+		if !ok {
+			return nil
+		}
+		o := astx.Obj(info, id)
+		if o == params[0] || o == params[1] {
+			return o
+		}
+		return nil
+	}
+	g := c.Graph(fi)
+	trues, good := 0, 0
+	okAll := true
+	var stack []ast.Node
+	ast.Inspect(fi.Body(), func(n ast.Node) bool {
+		if n == nil {
+			stack = stack[:len(stack)-1]
+			return true
+		}
+		stack = append(stack, n)
+		rs, ok := n.(*ast.ReturnStmt)
+		if !ok || len(rs.Results) != 1 {
+			return true
+		}
+		tv, ok := info.Types[rs.Results[0]]
+		if !ok || tv.Value == nil {
+			okAll = false
+			return true
+		}
+		if tv.Value.String() != "true" {
+			return true
+		}
+		trues++
+		// enclosing range over P.Channels
+		var loop *ast.RangeStmt
+		for i := len(stack) - 1; i >= 0; i-- {
+			if l, ok := stack[i].(*ast.RangeStmt); ok {
+				loop = l
+				break
+			}
+		}
+		if loop == nil {
+			return true
+		}
+		outer := paramOf(loop.X)
+		kid, _ := loop.Key.(*ast.Ident)
+		if outer == nil || kid == nil {
+			return true
+		}
+		for _, fct := range g.FactsAt(g.VertexOf(rs)) {
+			okv, isID := ast.Unparen(fct.Expr).(*ast.Ident)
+			if !isID || !fct.Val {
+				continue
+			}
+			for _, d := range defsOf(info, fi.Node(), astx.Obj(info, okv)) {
+				ie, ok := ast.Unparen(d).(*ast.IndexExpr)
+				if d == nil || !ok {
+					continue
+				}
+				inner := paramOf(ie.X)
+				if iid, ok := ast.Unparen(ie.Index).(*ast.Ident); ok && inner != nil && inner != outer && astx.Obj(info, iid) == astx.Obj(info, kid) {
+					good++
+					return true
+				}
+			}
+		}
+		return true
+	})
+	return okAll && trues > 0 && trues == good
 }
